@@ -22,6 +22,17 @@ def is_err(r):
     return isinstance(v, mx.Agg) and v.name == "Result" and v.variant == "Err"
 
 
+def safe(fn, out, *args):
+    """E3 obligations attached to an E1 check must never take the E1 part down: an MIR shape the executor cannot follow is INCONCLUSIVE"""
+    try:
+        return fn(out, *args)
+    except mx.Inconclusive as e:
+        out.inconclusive.append("fn=%s reason=%s" % (fn.__name__, e))
+    except Exception as e:  # noqa: a parser / executor surprise after a refactoring of derive-ex
+        out.inconclusive.append("fn=%s reason=executor error %s: %s" % (fn.__name__, type(e).__name__, str(e)[:200]))
+    return e3.Obligations("-")
+
+
 def summary(obl):
     return {"e3_obligations": obl.total, "e3_discharged": obl.discharged, "e3_functions": obl.functions, "e3_solver_time_s": round(obl.solver_time, 2)}
 
@@ -79,7 +90,10 @@ def c11_into(out, nv=2):
         out.violation("into-table|%s" % kind, "-", "HelperAttributeForDefault::value: wrong %s decision for a default expression of kind Expr::%s (Lit kind %s)" % (
             info, kind, lits[m.eval(l, model_completion=True).as_long()]))
     obl.failed = []
-    c11_enum_rules(out, obl, nv)
+    try:
+        c11_enum_rules(out, obl, nv)
+    except mx.Inconclusive as e:
+        out.inconclusive.append("fn=build_default_for_enum reason=%s" % e)
     for label, m, info in obl.failed:
         if label.startswith("coverage"):
             out.broken.append("build_default_for_enum: path conditions do not cover the configuration space")
@@ -207,7 +221,10 @@ def c01_selection(out):
             obl.check_unsat(ex, "is_reverse:ok", list(r.pc) + [z3.And(op == 0, rv("partial_ord"))], info=("rev", "ok"))
     for label, m, info in obl.failed:
         out.violation("e3|%s" % label, "-", "MIR path of %s disagrees with the documented precedence / reverse rule (%s)" % (label, info))
-    c01_to_index(out, obl)
+    try:
+        c01_to_index(out, obl)
+    except mx.Inconclusive as e:
+        out.inconclusive.append("fn=build_to_index_fn reason=%s" % e)
     return obl
 
 
